@@ -644,7 +644,13 @@ def run : Nat → Task → M Out
               for x in xs do
                 refs := refs ++ [← alloc (.app fv [x])]
               pure (.val (.arr refs))
-            | .builtin _, .arr _ => undecided "map with builtin"
+            | fv@(.func ..), .str str =>
+              let mut refs : List Ref := []
+              for ch in str.toList do
+                let rc ← alloc (.done (.str (String.singleton ch)))
+                refs := refs ++ [← alloc (.app fv [rc])]
+              pure (.val (.arr refs))
+            | .builtin _, _ => undecided "map with builtin"
             | _, _ => fail "type" "map(function, array)"
           | "filter" => do
             match ← arg 0, ← arg 1 with
